@@ -2,6 +2,7 @@ import PetgraphModel.Proofs.C15Matching
 import PetgraphModel.Proofs.C15Flow
 import PetgraphModel.Proofs.C15Greedy
 import PetgraphModel.Proofs.C15FlowModel
+import PetgraphModel.Proofs.C15W2Hyp
 /-
 C15 — `maximum_matching` is maximum, `greedy_matching` valid, `ford_fulkerson` a maximum flow.
 
@@ -9,8 +10,11 @@ Part 1: soundness of every judge the driver applies to the implementation's answ
 and ALL answers (the judges speak about the abstract `MGraph` only).
 Part 2: theorems over the mirror models of `Model/C15Matching.lean` for all views (accessor
 consistency, validity of `greedy_matching`).
-Part 3: what is only judged per run (Gabow's `maximum_matching`): full statements as `_statement`,
-proved part as `_partial`, and the D25 witness on the model.
+Part 3: Gabow's `maximum_matching`: the original full statements as `_statement` (both false as written
+for views with a stale index-map entry, see the `_false_witness` theorems), the validity clause proved
+with the vacancy hypothesis added (`C15_maximum_valid`, wave 2, `Proofs/C15W2*.lean`), the maximality
+clause still judged per run (`C15_maximum_partial`, `C15_maximum_maximum_partial2`), and the D25
+witness on the model.
 Part 2b (at the end of the file): the Edmonds–Karp mirror model of `Model/C15Flow.lean` returns a
 feasible maximum flow and the capacity of a minimum cut, for all views and non-negative integer
 capacities.
@@ -166,6 +170,115 @@ def C15_maximum_valid_statement : Prop :=
     (maximumMatching v mode).fault = false ∧ MWF v (maximumMatching v mode) ∧
     MateValid v.g (mateTable v (maximumMatching v mode))
 
+/-- the executable form of `ViewExact` is sound -/
+theorem viewExactB_sound (v : View) (h : C15W2.viewExactB v = true) : ViewExact v := by
+  unfold C15W2.viewExactB at h
+  simp only [Bool.and_eq_true] at h
+  obtain ⟨⟨⟨⟨h1, h2⟩, h3⟩, h4⟩, h5⟩ := h
+  refine ⟨nodupB_nodup _ h1, ?_, ?_, ?_, ?_⟩
+  · intro a b eid hb
+    unfold View.outOf at hb
+    cases hl : v.out.lookup a with
+    | none => simp [hl] at hb
+    | some row =>
+      simp only [hl, Option.getD_some] at hb
+      have hmem := mem_of_lookup v.out a row hl
+      have := List.all_eq_true.mp (List.all_eq_true.mp h2 (a, row) hmem) (b, eid) hb
+      obtain ⟨e, he, hp⟩ := List.any_eq_true.mp this
+      simp only [Bool.and_eq_true, beq_iff_eq, Bool.or_eq_true, Bool.not_eq_true'] at hp
+      refine ⟨e, he, hp.1, ?_⟩
+      rcases hp.2 with hh | hh
+      · exact Or.inl hh
+      · exact Or.inr ⟨hh.1.1, hh.1.2, hh.2⟩
+  · intro e he
+    have := List.all_eq_true.mp h3 e he
+    simp only [Bool.and_eq_true, List.contains_eq_mem, decide_eq_true_eq, Bool.or_eq_true] at this
+    refine ⟨this.1, fun hd => ?_⟩
+    rcases this.2 with hh | hh
+    · rw [hd] at hh; cases hh
+    · exact hh
+  · intro a b eid hb
+    unfold View.innOf at hb
+    cases hl : v.inn.lookup a with
+    | none => simp [hl] at hb
+    | some row =>
+      simp only [hl, Option.getD_some] at hb
+      have hmem := mem_of_lookup v.inn a row hl
+      have := List.all_eq_true.mp (List.all_eq_true.mp h4 (a, row) hmem) (b, eid) hb
+      obtain ⟨e, he, hp⟩ := List.any_eq_true.mp this
+      simp only [Bool.and_eq_true, beq_iff_eq, Bool.or_eq_true, Bool.not_eq_true'] at hp
+      refine ⟨e, he, hp.1, ?_⟩
+      rcases hp.2 with hh | hh
+      · exact Or.inl hh
+      · exact Or.inr ⟨hh.1.1, hh.1.2, hh.2⟩
+  · intro e he
+    have := List.all_eq_true.mp h5 e he
+    simpa using this
+
+/-- **`maximum_matching` (the Gabow mirror model) returns a valid matching**, for every view whose
+index map is injective, whose neighbour rows are exact, and where `from_index` of a vacant index is
+not a live node (`VacOk`; for `StableGraph` the vacant index names a node without edges): no fault
+(no out-of-bounds access, no `unwrap` of `None`, no unexpected label; `find_join` and `augment_path`
+end within their fuel), the resulting `Matching` is well formed (so all accessors agree with `mate`),
+`mate` is symmetric, nobody is matched twice, every matched pair is joined by a non-loop edge.
+
+This is `C15_maximum_valid_statement` with the additional hypothesis `VacOk`, without which the
+statement is false for the model (`C15_maximum_valid_statement_false_witness`).  The proof keeps
+Gabow's labelling invariant (every outer vertex has a simple alternating path to the start vertex
+that the labels describe, `first_inner` names the first non-outer vertex of every such path) through
+the vertex labelling and `find_join`, and shows that `augment_path` re-matches exactly such a path. -/
+theorem C15_maximum_valid (v : View) (mode : Nat) (hix : IxOk v) (hwf : v.g.WellFormed)
+    (hex : ViewExact v) (hvac : C15W2.VacOk v) :
+    (maximumMatching v mode).fault = false ∧ MWF v (maximumMatching v mode) ∧
+    MateValid v.g (mateTable v (maximumMatching v mode)) := by
+  have hv : C15W2.VHyp v mode := C15W2.VHyp.of_exact v mode hix hwf hex.ids hex.out_sound hvac
+  have hs : ViewSound v := by
+    intro a b hb
+    unfold View.succ at hb
+    obtain ⟨p, hp, rfl⟩ := List.mem_map.mp hb
+    obtain ⟨e, he, _, hh⟩ := hex.out_sound a p.1 p.2 hp
+    exact ⟨e, he, hh⟩
+  have h := C15W2.maximumMatching_valid v mode hv hs hwf
+  exact ⟨h.1, h.2.1, h.2.2.1⟩
+
+/-- the same from executable checks of the hypotheses -/
+theorem C15_maximum_valid_checked (v : View) (mode : Nat) (h1 : ixOkB v = true) (h2 : wfB v.g = true)
+    (h3 : C15W2.viewExactB v = true) (h4 : C15W2.vacOkB v = true) :
+    (maximumMatching v mode).fault = false ∧
+    IsMatching v.g (pairsOf (mateTable v (maximumMatching v mode))) ∧
+    (pairsOf (mateTable v (maximumMatching v mode))).length ≤ maxMatchingSize v.g := by
+  have h := C15_maximum_valid v mode (ixOkB_sound v h1) (wfB_sound v.g h2) (viewExactB_sound v h3)
+    (C15W2.vacOkB_sound v h4)
+  have hm := mateValid_isMatching _ _ h.2.2
+  exact ⟨h.1, hm, maxMatchingSize_upper _ _ hm⟩
+
+/-- the hypotheses of `C15_maximum_valid` hold for the example view (a vacancy at index 1) -/
+example : ixOkB exampleView = true ∧ wfB exampleView.g = true ∧ C15W2.viewExactB exampleView = true ∧
+    C15W2.vacOkB exampleView = true := by decide
+
+/-- a view with a stale entry in its index map: `from_index 3` is the live node `0` although the
+index of node `0` is `0` (no petgraph graph type behaves like this) -/
+def staleIxView : View :=
+  { g := { directed := false, nodes := [0, 1, 2],
+           edges := [⟨0, 0, 1, 1⟩, ⟨1, 0, 2, 1⟩] },
+    nb := 4, ix := [(0, 0), (1, 1), (2, 2), (0, 3)],
+    out := [(0, [(1, 0), (2, 1)]), (1, [(0, 0)]), (2, [(0, 1)])],
+    inn := [(0, [(1, 0), (2, 1)]), (1, [(0, 0)]), (2, [(0, 1)])] }
+
+/-- **`C15_maximum_valid_statement` is false as written** (smallest witness: 3 nodes, 2 edges): for
+`staleIxView` all its hypotheses hold, but the search "from the vacant index 3" starts at the matched
+node `0`, finds the free neighbour `2`, and `augment_path` hits a vertex without a label (a panic in
+the Rust code, `fault` in the model).  The missing hypothesis is `VacOk`. -/
+theorem C15_maximum_valid_statement_false_witness : ¬ C15_maximum_valid_statement := by
+  intro h
+  have h1 : ixOkB staleIxView = true := by decide
+  have h2 : wfB staleIxView.g = true := by decide
+  have h3 : C15W2.viewExactB staleIxView = true := by decide
+  have := (h staleIxView 0 (ixOkB_sound _ h1) (wfB_sound _ h2) (viewExactB_sound _ h3)).1
+  have hf : (maximumMatching staleIxView 0).fault = true := by decide +kernel
+  rw [hf] at this
+  cases this
+
 /-- `maximum_matching` returns a maximum matching on undirected storage: full statement (not
 proved: the correctness proof of Gabow's labelling algorithm is out of reach here; judged per run
 against `maxMatchingSize`, whose correctness is proved above).  On directed storage the statement is
@@ -186,6 +299,68 @@ theorem C15_maximum_partial (v : View) (mode : Nat) (hix : IxOk v) (hwf : v.g.We
   refine ⟨(C15_greedy_valid v hix hwf hs).2.2.2, fun hv => ?_⟩
   have hm := mateValid_isMatching _ _ hv
   exact ⟨maxMatchingSize_upper _ _ hm, fun hl => ⟨hm, fun M' hM' => hl ▸ maxMatchingSize_upper _ M' hM'⟩⟩
+
+/-- another view with a stale entry in its index map (`from_index 4` is the live node `2`): the path
+`0 - 2 - 1` and an isolated node -/
+def staleIxView2 : View :=
+  { g := { directed := false, nodes := [0, 1, 2, 3],
+           edges := [⟨0, 0, 2, 1⟩, ⟨1, 1, 2, 1⟩] },
+    nb := 5, ix := [(0, 0), (1, 1), (2, 2), (3, 3), (2, 4)],
+    out := [(0, [(2, 0)]), (1, [(2, 1)]), (2, [(0, 0), (1, 1)]), (3, [])],
+    inn := [(0, [(2, 0)]), (1, [(2, 1)]), (2, [(0, 0), (1, 1)]), (3, [])] }
+
+/-- **`C15_maximum_maximum_statement` is false as written**, for the same reason as
+`C15_maximum_valid_statement`: on `staleIxView2` (undirected, all hypotheses hold) the search "from the
+vacant index 4" starts at the matched node `2` and matches the free node `1` to it as well, so the
+returned pairs `0-2`, `1-2` are not a matching.  With `VacOk` added the validity part is
+`C15_maximum_valid`; the maximality part remains open (`C15_maximum_maximum_partial2`). -/
+theorem C15_maximum_maximum_statement_false_witness : ¬ C15_maximum_maximum_statement := by
+  intro h
+  have h1 : ixOkB staleIxView2 = true := by decide
+  have h2 : wfB staleIxView2.g = true := by decide
+  have h3 : C15W2.viewExactB staleIxView2 = true := by decide
+  have hp := (h staleIxView2 0 (ixOkB_sound _ h1) (wfB_sound _ h2) (viewExactB_sound _ h3) rfl).1.2
+  have e : pairsOf (mateTable staleIxView2 (maximumMatching staleIxView2 0)) = [(0, 2), (1, 2)] := by
+    decide +kernel
+  rw [e] at hp
+  simp [Disjoint2] at hp
+
+/-- proved part of the maximality clause, now without any assumption on the result (for every view
+satisfying the hypotheses of `C15_maximum_valid`, directed or not): the pairs returned by the Gabow
+mirror model form a matching of the graph, their number is `len()`, it is at least the number of pairs
+of the greedy matching the search starts from (every search either leaves `mate` alone or adds one
+edge), at most the definitional maximum, and the result is a maximum matching exactly if the per-run
+judge `len = maxMatchingSize` accepts.
+Still missing for `C15_maximum_maximum_statement` (undirected storage): that a search which ends
+without an augmentation certifies that no augmenting path starts at its start vertex (completeness
+of Gabow's labelling: every edge out of an outer vertex has been scanned and leads to an outer
+vertex or to the mate of one, the blossoms are odd and closed), that this survives later
+augmentations, and Berge's theorem; none of this is formalised. -/
+theorem C15_maximum_maximum_partial2 (v : View) (mode : Nat) (hix : IxOk v) (hwf : v.g.WellFormed)
+    (hex : ViewExact v) (hvac : C15W2.VacOk v) :
+    IsMatching v.g (pairsOf (mateTable v (maximumMatching v mode))) ∧
+    (pairsOf (mateTable v (maximumMatching v mode))).length = (maximumMatching v mode).len ∧
+    (pairsOf (mateTable v (greedyInner v))).length ≤ (pairsOf (mateTable v (maximumMatching v mode))).length ∧
+    (pairsOf (mateTable v (maximumMatching v mode))).length ≤ maxMatchingSize v.g ∧
+    ((pairsOf (mateTable v (maximumMatching v mode))).length = maxMatchingSize v.g ↔
+      IsMaximumMatching v.g (pairsOf (mateTable v (maximumMatching v mode)))) := by
+  have hv : C15W2.VHyp v mode := C15W2.VHyp.of_exact v mode hix hwf hex.ids hex.out_sound hvac
+  have hs : ViewSound v := by
+    intro a b hb
+    unfold View.succ at hb
+    obtain ⟨p, hp, rfl⟩ := List.mem_map.mp hb
+    obtain ⟨e, he, _, hh⟩ := hex.out_sound a p.1 p.2 hp
+    exact ⟨e, he, hh⟩
+  obtain ⟨_, hmw, hmv, hmono⟩ := C15W2.maximumMatching_valid v mode hv hs hwf
+  have hm := mateValid_isMatching _ _ hmv
+  have hg := (greedy_valid v hix hwf hs).1
+  have e1 := C15W2.pairs_length v hwf.1 _ hmw
+  have e2 := C15W2.pairs_length v hwf.1 _ hg
+  refine ⟨hm, e1, by rw [e1, e2]; exact hmono, maxMatchingSize_upper _ _ hm, ?_, ?_⟩
+  · intro hl
+    exact ⟨hm, fun M' hM' => hl ▸ maxMatchingSize_upper _ M' hM'⟩
+  · intro h
+    exact C15_maximum_judge_complete _ _ h
 
 /-- the witness of open finding D25: the digraph `u→s, u→v, v→t` in `Graph`'s iteration order -/
 def d25View : View :=
